@@ -54,9 +54,13 @@ theorem ConnsExt.set (cs : List Conn) (k : Nat) (c : Conn) (h : CExt (cs.getD k 
 
 /-! ### the frame relation -/
 
-/-- the reconnect-loop part of the state (and `cli`), which the task goroutine never touches -/
-def loopSt (w : World) : Phase × List Nat × Nat × Nat × Bool × Option Nat :=
-  (w.phase, w.waits, w.waitExp, w.dials, w.stopped, w.cli)
+/-- the reconnect-loop part of the state (with `cli` and what `ReconnectClient.Connect` returned / its
+    context), which the task goroutine never touches -/
+def loopSt (w : World) : Phase × List Nat × Nat × Nat × Bool × Option Nat × Option Bool × Bool × Bool × Cfg :=
+  (w.phase, w.waits, w.waitExp, w.dials, w.stopped, w.cli, w.connectReturned, w.ctxCancelled, w.connectErr, w.cfg)
+
+/-- the part that belongs to `ReconnectClient.Connect` and its context -/
+def ctxSt (w : World) : Option Bool × Bool × Bool := (w.connectReturned, w.ctxCancelled, w.connectErr)
 
 def Frame (w w' : World) : Prop := ConnsExt w.conns w'.conns ∧ loopSt w' = loopSt w
 
@@ -75,7 +79,16 @@ theorem Frame.waits {w w' : World} (h : Frame w w') : w'.waits = w.waits := cong
 theorem Frame.waitExp {w w' : World} (h : Frame w w') : w'.waitExp = w.waitExp := congrArg (·.2.2.1) h.2
 theorem Frame.dials {w w' : World} (h : Frame w w') : w'.dials = w.dials := congrArg (·.2.2.2.1) h.2
 theorem Frame.stopped {w w' : World} (h : Frame w w') : w'.stopped = w.stopped := congrArg (·.2.2.2.2.1) h.2
-theorem Frame.cli {w w' : World} (h : Frame w w') : w'.cli = w.cli := congrArg (·.2.2.2.2.2) h.2
+theorem Frame.cli {w w' : World} (h : Frame w w') : w'.cli = w.cli := congrArg (·.2.2.2.2.2.1) h.2
+theorem Frame.connectReturned {w w' : World} (h : Frame w w') : w'.connectReturned = w.connectReturned :=
+  congrArg (·.2.2.2.2.2.2.1) h.2
+theorem Frame.ctxCancelled {w w' : World} (h : Frame w w') : w'.ctxCancelled = w.ctxCancelled :=
+  congrArg (·.2.2.2.2.2.2.2.1) h.2
+theorem Frame.connectErr {w w' : World} (h : Frame w w') : w'.connectErr = w.connectErr :=
+  congrArg (·.2.2.2.2.2.2.2.2.1) h.2
+theorem Frame.cfg {w w' : World} (h : Frame w w') : w'.cfg = w.cfg := congrArg (·.2.2.2.2.2.2.2.2.2) h.2
+theorem Frame.ctx {w w' : World} (h : Frame w w') : ctxSt w' = ctxSt w := by
+  unfold ctxSt; rw [h.connectReturned, h.ctxCancelled, h.connectErr]
 theorem Frame.length {w w' : World} (h : Frame w w') : w'.conns.length = w.conns.length := h.1.1
 theorem Frame.conn {w w' : World} (h : Frame w w') (j : Nat) : CExt (getConn w j) (getConn w' j) := h.1.2 j
 theorem Frame.dead {w w' : World} (h : Frame w w') {j : Nat} (hd : (getConn w j).alive = false) :
@@ -340,8 +353,8 @@ theorem loopReact_cases (w : World) :
     (∃ k, w.phase = .up k ∧ (getConn w k).alive = false ∧ w.stopped = true ∧
         loopReact w = { w with phase := .exited }) ∨
     (∃ k, w.phase = .up k ∧ (getConn w k).alive = false ∧ w.stopped = false ∧
-        loopReact w = { w with phase := .dialGate, waits := w.waits ++ [w.waitExp],
-                               waitExp := w.waitExp + 1, dials := w.dials + 1 }) := by
+        loopReact w = { w with phase := .backoff, waits := w.waits ++ [w.waitExp],
+                               waitExp := w.waitExp + 1 }) := by
   unfold loopReact
   split
   · rename_i k hk
@@ -358,6 +371,27 @@ theorem loopReact_cases (w : World) :
   · rename_i hn
     left
     exact ⟨rfl, fun k hk => absurd hk (hn k)⟩
+
+theorem loopReact_ctx (w : World) : ctxSt (loopReact w) = ctxSt w := by
+  unfold loopReact; split
+  · split
+    · rfl
+    · split <;> rfl
+  · rfl
+
+theorem loopReact_cfg (w : World) : (loopReact w).cfg = w.cfg := by
+  unfold loopReact; split
+  · split
+    · rfl
+    · split <;> rfl
+  · rfl
+
+theorem loopReact_dials (w : World) : (loopReact w).dials = w.dials := by
+  unfold loopReact; split
+  · split
+    · rfl
+    · split <;> rfl
+  · rfl
 
 theorem loopReact_of_not_up (w : World) (h : ∀ k, w.phase ≠ .up k) : loopReact w = w := by
   unfold loopReact
@@ -393,8 +427,20 @@ theorem frame_foldl_deliverInbound (k : Nat) (l : List (Nat × Nat)) (w : World)
 /-- what `Disconnect` does to the phase once the task goroutine and the loop have settled -/
 def discPhase : Phase → Phase
   | .up _ => .exited
-  | .dialGate => .exited
+  | .backoff => .exited
   | p => p
+
+/-- what an effective cancellation of Connect's context does to the phase -/
+def cancelPhase : Phase → Phase
+  | .idle => .idle
+  | .up k => .up k
+  | _ => .exited
+
+/-- … and to `connectErr` -/
+def cancelErr : Phase → Bool → Bool
+  | .idle, b => b
+  | .up _, b => b
+  | _, _ => true
 
 /-- the connection a successful dial creates -/
 def freshConn (w : World) (idStart : Nat) : Conn :=
@@ -448,57 +494,77 @@ inductive Shape (w : World) : Ev → World → Prop
   | frame (ev : Ev) (w' : World) (h : Frame w w') (ha : AliveEq w w') : Shape w ev w'
   /-- the task goroutine runs, then the loop looks at its connection -/
   | react (ev : Ev) (w1 : World) (h : Frame w w1) : Shape w ev (loopReact w1)
-  | start (hp : w.phase = .idle) : Shape w .start { w with phase := .dialGate, dials := w.dials + 1 }
+  | start (hp : w.phase = .idle) (hx : w.ctxCancelled = false) :
+      Shape w .start { w with phase := .dialGate, dials := w.dials + 1 }
+  /-- Connect called with a context that is already done: one dial attempt, then the loop returns -/
+  | startCancelled (hp : w.phase = .idle) (hx : w.ctxCancelled = true) :
+      Shape w .start { w with phase := .exited, dials := w.dials + 1, connectErr := true }
   | dialOk (i : Nat) (hp : w.phase = .dialGate) (w' : World)
       (hc : w'.conns = w.conns ++ [freshConn w i]) (hph : w'.phase = .connackGate w.conns.length)
       (hw : w'.waits = w.waits) (he : w'.waitExp = w.waitExp) (hd : w'.dials = w.dials)
-      (hs : w'.stopped = w.stopped) : Shape w (.dialOk i) w'
+      (hs : w'.stopped = w.stopped) (hx : ctxSt w' = ctxSt w) : Shape w (.dialOk i) w'
+  /-- a dial error: the wait is logged, the loop sleeps; no new dial yet -/
   | dialFail (hp : w.phase = .dialGate) (hs0 : w.stopped = false) :
-      Shape w .dialFail { w with waits := w.waits ++ [w.waitExp], waitExp := w.waitExp + 1, dials := w.dials + 1 }
+      Shape w .dialFail { w with phase := .backoff, waits := w.waits ++ [w.waitExp], waitExp := w.waitExp + 1 }
   /-- a dial error after Disconnect: the loop's select sees `disconnected` and returns -/
   | dialFailStopped (hp : w.phase = .dialGate) (hs0 : w.stopped = true) :
       Shape w .dialFail { w with phase := .exited }
+  /-- the back-off timer fires: the next dial -/
+  | waitElapsed (hp : w.phase = .backoff) :
+      Shape w .waitElapsed { w with phase := .dialGate, dials := w.dials + 1 }
   /-- CONNACK accepted, Disconnect not called: `w1` is the world just before the goroutine's `progress` -/
   | connOk (sp : Bool) (inb : List (Nat × Nat)) (k : Nat) (hp : w.phase = .connackGate k)
       (hs0 : w.stopped = false) (w1 : World)
       (hc : ConnsExt w.conns w1.conns) (hph : w1.phase = .up k)
       (hw : w1.waits = w.waits) (he : w1.waitExp = 0) (hd : w1.dials = w.dials)
-      (hs : w1.stopped = w.stopped) : Shape w (.connackOk sp inb) (loopReact w1)
+      (hs : w1.stopped = w.stopped)
+      (hx : ctxSt w1 = (if w.connectReturned.isNone then some sp else w.connectReturned, w.ctxCancelled, w.connectErr)) :
+      Shape w (.connackOk sp inb) (loopReact w1)
   /-- CONNACK accepted after Disconnect: the loop returns at once instead of watching the connection
       (the queued Disconnect task closes it) -/
   | connOkStopped (sp : Bool) (inb : List (Nat × Nat)) (k : Nat) (hp : w.phase = .connackGate k)
       (hs0 : w.stopped = true) (w' : World)
       (hc : ConnsExt w.conns w'.conns) (hph : w'.phase = .exited)
       (hw : w'.waits = w.waits) (he : w'.waitExp = 0) (hd : w'.dials = w.dials)
-      (hs : w'.stopped = w.stopped) : Shape w (.connackOk sp inb) w'
-  /-- CONNACK refused or timed out, Disconnect not called: back off and dial again -/
+      (hs : w'.stopped = w.stopped)
+      (hx : ctxSt w' = (if w.connectReturned.isNone then some sp else w.connectReturned, w.ctxCancelled, w.connectErr)) :
+      Shape w (.connackOk sp inb) w'
+  /-- CONNACK refused or timed out, Disconnect not called: the wait is logged, the loop sleeps -/
   | connFail (ev : Ev) (hev : ev = .connackRefused ∨ ev = .connackNever) (k : Nat)
       (hp : w.phase = .connackGate k) (hs0 : w.stopped = false) (w' : World)
       (hc : ConnsExt w.conns w'.conns) (hdead : k < w.conns.length → (getConn w' k).alive = false)
-      (hph : w'.phase = .dialGate)
-      (hw : w'.waits = w.waits ++ [w.waitExp]) (he : w'.waitExp = w.waitExp + 1) (hd : w'.dials = w.dials + 1)
-      (hs : w'.stopped = w.stopped) : Shape w ev w'
+      (hph : w'.phase = .backoff)
+      (hw : w'.waits = w.waits ++ [w.waitExp]) (he : w'.waitExp = w.waitExp + 1) (hd : w'.dials = w.dials)
+      (hs : w'.stopped = w.stopped) (hx : ctxSt w' = ctxSt w) : Shape w ev w'
   /-- CONNACK refused or timed out after Disconnect: the loop exits -/
   | connFailStopped (ev : Ev) (hev : ev = .connackRefused ∨ ev = .connackNever) (k : Nat)
       (hp : w.phase = .connackGate k) (hs0 : w.stopped = true) (w' : World)
       (hc : ConnsExt w.conns w'.conns) (hph : w'.phase = .exited)
       (hw : w'.waits = w.waits) (he : w'.waitExp = w.waitExp) (hd : w'.dials = w.dials)
-      (hs : w'.stopped = w.stopped) : Shape w ev w'
+      (hs : w'.stopped = w.stopped) (hx : ctxSt w' = ctxSt w) : Shape w ev w'
   | disc (hs0 : w.stopped = false) (w1 : World)
       (hc : ConnsExt w.conns w1.conns) (hph : w1.phase = w.phase)
       (hw : w1.waits = w.waits) (he : w1.waitExp = w.waitExp) (hd : w1.dials = w.dials)
-      (hs : w1.stopped = true) :
+      (hs : w1.stopped = true) (hx : ctxSt w1 = ctxSt w) :
       Shape w .disconnect { loopReact w1 with phase := discPhase (loopReact w1).phase }
+  /-- an EFFECTIVE cancellation of the context given to Connect (Connect has not returned yet) -/
+  | cancel (hcc0 : w.ctxCancelled = false) (hcr0 : w.connectReturned = none) (w' : World)
+      (hc : ConnsExt w.conns w'.conns) (hph : w'.phase = cancelPhase w.phase)
+      (hup : ∀ k, w.phase = .up k → AliveEq w w')
+      (hw : w'.waits = w.waits) (he : w'.waitExp = w.waitExp) (hd : w'.dials = w.dials)
+      (hs : w'.stopped = w.stopped)
+      (hx : ctxSt w' = (none, true, cancelErr w.phase w.connectErr)) : Shape w .cancelCtx w'
 
 theorem connectFailed_spec (w : World) (k : Nat) :
     ConnsExt w.conns (connectFailed w k).conns ∧
     (k < w.conns.length → (getConn (connectFailed w k) k).alive = false) ∧
-    (connectFailed w k).stopped = w.stopped ∧
+    (connectFailed w k).stopped = w.stopped ∧ (connectFailed w k).dials = w.dials ∧
+    ctxSt (connectFailed w k) = ctxSt w ∧
     (w.stopped = true → (connectFailed w k).phase = .exited ∧ (connectFailed w k).waits = w.waits ∧
-        (connectFailed w k).waitExp = w.waitExp ∧ (connectFailed w k).dials = w.dials) ∧
-    (w.stopped = false → (connectFailed w k).phase = .dialGate ∧
+        (connectFailed w k).waitExp = w.waitExp) ∧
+    (w.stopped = false → (connectFailed w k).phase = .backoff ∧
         (connectFailed w k).waits = w.waits ++ [w.waitExp] ∧
-        (connectFailed w k).waitExp = w.waitExp + 1 ∧ (connectFailed w k).dials = w.dials + 1) := by
+        (connectFailed w k).waitExp = w.waitExp + 1) := by
   have hk : Frame w (kill { w with connReady := true } k) :=
     ((Frame.refl w).upd (w' := { w with connReady := true }) rfl rfl).trans (frame_kill _ _)
   have hdead : k < w.conns.length → (getConn (kill { w with connReady := true } k) k).alive = false :=
@@ -507,24 +573,24 @@ theorem connectFailed_spec (w : World) (k : Nat) :
   have he := hk.waitExp
   have hd := hk.dials
   have hs := hk.stopped
+  have hx := hk.ctx
   have hc := hk.1
   unfold connectFailed
   generalize kill { w with connReady := true } k = wk at *
   simp only
   split
   · rename_i hst
-    refine ⟨hc, hdead, hs, fun _ => ⟨rfl, hw, he, hd⟩, fun h0 => ?_⟩
+    refine ⟨hc, hdead, hs, hd, hx, fun _ => ⟨rfl, hw, he⟩, fun h0 => ?_⟩
     rw [← hs, hst] at h0; cases h0
   · rename_i hst
-    refine ⟨hc, hdead, hs, fun h1 => ?_, fun _ => ⟨rfl, ?_, ?_, ?_⟩⟩
+    refine ⟨hc, hdead, hs, hd, hx, fun h1 => ?_, fun _ => ⟨rfl, ?_, ?_⟩⟩
     · rw [← hs] at h1; exact absurd h1 hst
     · show wk.waits ++ [wk.waitExp] = _; rw [hw, he]
     · show wk.waitExp + 1 = _; rw [he]
-    · show wk.dials + 1 = _; rw [hd]
 
 theorem connectFailed_shape (w : World) (k : Nat) (ev : Ev) (hev : ev = .connackRefused ∨ ev = .connackNever)
     (hp : w.phase = .connackGate k) : Shape w ev (progress (connectFailed w k)) := by
-  obtain ⟨hc, hdead, hs, hT, hF⟩ := connectFailed_spec w k
+  obtain ⟨hc, hdead, hs, hd, hx, hT, hF⟩ := connectFailed_spec w k
   have hf := frame_runTasks ((connectFailed w k).taskQ.length + 1) (connectFailed w k)
   have hnu : ∀ k', (runTasks ((connectFailed w k).taskQ.length + 1) (connectFailed w k)).phase ≠ .up k' := by
     intro k'
@@ -537,19 +603,19 @@ theorem connectFailed_shape (w : World) (k : Nat) (ev : Ev) (hev : ev = .connack
     exact loopReact_of_not_up _ hnu
   rw [hlr]
   cases hst : w.stopped
-  · obtain ⟨f1, f2, f3, f4⟩ := hF hst
+  · obtain ⟨f1, f2, f3⟩ := hF hst
     exact Shape.connFail ev hev k hp hst _ (hc.trans hf.1) (fun hlt => hf.dead (hdead hlt))
-      (hf.phase.trans f1) (hf.waits.trans f2) (hf.waitExp.trans f3) (hf.dials.trans f4)
-      (hf.stopped.trans hs)
-  · obtain ⟨f1, f2, f3, f4⟩ := hT hst
+      (hf.phase.trans f1) (hf.waits.trans f2) (hf.waitExp.trans f3) (hf.dials.trans hd)
+      (hf.stopped.trans hs) (hf.ctx.trans hx)
+  · obtain ⟨f1, f2, f3⟩ := hT hst
     exact Shape.connFailStopped ev hev k hp hst _ (hc.trans hf.1)
-      (hf.phase.trans f1) (hf.waits.trans f2) (hf.waitExp.trans f3) (hf.dials.trans f4)
-      (hf.stopped.trans hs)
+      (hf.phase.trans f1) (hf.waits.trans f2) (hf.waitExp.trans f3) (hf.dials.trans hd)
+      (hf.stopped.trans hs) (hf.ctx.trans hx)
 
 theorem disc_match (w : World) :
     (match w.phase with
       | .up _ => { w with phase := .exited }
-      | .dialGate => { w with phase := .exited }
+      | .backoff => { w with phase := .exited }
       | _ => w) = { w with phase := discPhase w.phase } := by
   cases w with
   | mk cfg taskQ retryQ subEst closeAfterTask cli connReady goroutine gConnected stopped stuck handler
@@ -608,7 +674,8 @@ theorem frame_cokC (w : World) (sp : Bool) : Frame w (cokC w sp) := by
 theorem cokB_spec (w : World) (k : Nat) (sp : Bool) (inb : List (Nat × Nat)) :
     let w1 := cokB w k sp inb
     ConnsExt w.conns w1.conns ∧ w1.waits = w.waits ∧ w1.waitExp = 0 ∧
-      w1.dials = w.dials ∧ w1.stopped = w.stopped := by
+      w1.dials = w.dials ∧ w1.stopped = w.stopped ∧
+      ctxSt w1 = (if w.connectReturned.isNone then some sp else w.connectReturned, w.ctxCancelled, w.connectErr) := by
   have ha : Frame w (setConn w k { getConn w k with connected := true }) :=
     frame_setConn _ _ _ (CExt.of_eq rfl rfl)
   have hb := ha.upd (w' := { setConn w k { getConn w k with connected := true } with
@@ -617,26 +684,135 @@ theorem cokB_spec (w : World) (k : Nat) (sp : Bool) (inb : List (Nat × Nat)) :
   have hc := hb.trans (frame_foldl_deliverInbound k inb _)
   simp only [cokB]
   generalize List.foldl (fun w (mq : Nat × Nat) => deliverInbound w k mq.1 mq.2) _ inb = wc at hc
-  exact ⟨hc.1, hc.waits, trivial, hc.dials, hc.stopped⟩
+  refine ⟨hc.1, hc.waits, trivial, hc.dials, hc.stopped, ?_⟩
+  simp only [ctxSt]
+  rw [hc.connectReturned, hc.ctxCancelled, hc.connectErr]
 
 theorem connackOkPre_spec (w : World) (k : Nat) (sp : Bool) (inb : List (Nat × Nat)) :
     let w1 := connackOkPre w k sp inb
     ConnsExt w.conns w1.conns ∧ (w1.phase = if w.stopped then .exited else .up k) ∧ w1.waits = w.waits ∧
-      w1.waitExp = 0 ∧ w1.dials = w.dials ∧ w1.stopped = w.stopped := by
-  obtain ⟨b1, b2, b3, b4, b5⟩ := cokB_spec w k sp inb
+      w1.waitExp = 0 ∧ w1.dials = w.dials ∧ w1.stopped = w.stopped ∧
+      ctxSt w1 = (if w.connectReturned.isNone then some sp else w.connectReturned, w.ctxCancelled, w.connectErr) := by
+  obtain ⟨b1, b2, b3, b4, b5, b6⟩ := cokB_spec w k sp inb
   have hf := frame_cokC (cokB w k sp inb) sp
   have hst : (cokC (cokB w k sp inb) sp).stopped = w.stopped := hf.stopped.trans b5
-  refine ⟨b1.trans hf.1, ?_, hf.waits.trans b2, hf.waitExp.trans b3, hf.dials.trans b4, hst⟩
+  refine ⟨b1.trans hf.1, ?_, hf.waits.trans b2, hf.waitExp.trans b3, hf.dials.trans b4, hst, hf.ctx.trans b6⟩
   show (if (cokC (cokB w k sp inb) sp).stopped = true then Phase.exited else Phase.up k) = _
   rw [hst]
+
+/-- `.cancelCtx` written with `cancelPhase`-style case analysis pulled out of `step` -/
+theorem step_cancel_noop (w : World) (h : w.ctxCancelled = true ∨ w.connectReturned.isSome = true) :
+    step w .cancelCtx = w := by
+  simp only [step]
+  rw [if_pos h]
+
+theorem progress_not_up (w : World) (h : ∀ k, w.phase ≠ .up k) : Frame w (progress w) := by
+  have hf := frame_runTasks (w.taskQ.length + 1) w
+  have : progress w = runTasks (w.taskQ.length + 1) w := by
+    unfold progress
+    exact loopReact_of_not_up _ (by intro k; rw [hf.phase]; exact h k)
+  rw [this]; exact hf
+
+/-- the world after an effective cancellation while the CONNACK is awaited -/
+def cancelGate (w : World) (k : Nat) : World :=
+  progress { kill { w with ctxCancelled := true, connReady := true } k with phase := .exited, connectErr := true }
+
+theorem cancelGate_spec (w : World) (k : Nat) (hcr0 : w.connectReturned = none) :
+    ConnsExt w.conns (cancelGate w k).conns ∧ (cancelGate w k).phase = .exited ∧
+    (cancelGate w k).waits = w.waits ∧ (cancelGate w k).waitExp = w.waitExp ∧
+    (cancelGate w k).dials = w.dials ∧ (cancelGate w k).stopped = w.stopped ∧
+    ctxSt (cancelGate w k) = (none, true, true) := by
+  unfold cancelGate
+  have h0 : Frame { w with ctxCancelled := true, connReady := true }
+      (kill { w with ctxCancelled := true, connReady := true } k) := frame_kill _ _
+  generalize hwk : kill { w with ctxCancelled := true, connReady := true } k = wk at h0
+  have hf := frame_runTasks (({ wk with phase := .exited, connectErr := true } : World).taskQ.length + 1)
+    { wk with phase := .exited, connectErr := true }
+  have hlr : progress { wk with phase := .exited, connectErr := true } =
+      runTasks (({ wk with phase := .exited, connectErr := true } : World).taskQ.length + 1)
+        { wk with phase := .exited, connectErr := true } := by
+    unfold progress
+    exact loopReact_of_not_up _ (by intro k'; rw [hf.phase]; simp)
+  rw [hlr]
+  refine ⟨ConnsExt.trans (b := wk.conns) h0.1 hf.1, ?_, ?_, ?_, ?_, ?_, ?_⟩
+  · rw [hf.phase]
+  · rw [hf.waits]; exact h0.waits
+  · rw [hf.waitExp]; exact h0.waitExp
+  · rw [hf.dials]; exact h0.dials
+  · rw [hf.stopped]; exact h0.stopped
+  · rw [hf.ctx]
+    have h1 := h0.connectReturned
+    have h2 := h0.ctxCancelled
+    simp only [ctxSt]
+    rw [h1, h2]
+    simp [hcr0]
+
+/-- … the connection whose CONNACK was awaited is closed -/
+theorem cancelGate_dead (w : World) (k : Nat) (hk : k < w.conns.length) :
+    (getConn (cancelGate w k) k).alive = false := by
+  unfold cancelGate
+  have hd := kill_dead { w with ctxCancelled := true, connReady := true } k hk
+  generalize kill { w with ctxCancelled := true, connReady := true } k = wk at hd
+  have hd' : (getConn { wk with phase := .exited, connectErr := true } k).alive = false := hd
+  have hf := progress_not_up { wk with phase := .exited, connectErr := true } (by intro k'; simp)
+  exact hf.dead hd'
+
+theorem step_cancel_gate (w : World) (k : Nat) (hcc0 : w.ctxCancelled = false) (hcr0 : w.connectReturned = none)
+    (hp : w.phase = .connackGate k) : step w .cancelCtx = cancelGate w k := by
+  have h : ¬ (w.ctxCancelled = true ∨ w.connectReturned.isSome = true) := by
+    rw [hcc0, hcr0]; simp
+  simp only [step, if_neg h, hp, cancelGate]
+
+/-- an EFFECTIVE `.cancelCtx` (Connect has not returned, the context was not cancelled before) -/
+theorem cancel_spec (w : World) (hcc0 : w.ctxCancelled = false) (hcr0 : w.connectReturned = none) :
+    ConnsExt w.conns (step w .cancelCtx).conns ∧ (step w .cancelCtx).phase = cancelPhase w.phase ∧
+    (∀ k, w.phase = .up k → AliveEq w (step w .cancelCtx)) ∧
+    (step w .cancelCtx).waits = w.waits ∧ (step w .cancelCtx).waitExp = w.waitExp ∧
+    (step w .cancelCtx).dials = w.dials ∧ (step w .cancelCtx).stopped = w.stopped ∧
+    ctxSt (step w .cancelCtx) = (none, true, cancelErr w.phase w.connectErr) := by
+  have h : ¬ (w.ctxCancelled = true ∨ w.connectReturned.isSome = true) := by
+    rw [hcc0, hcr0]; simp
+  cases hph : w.phase with
+  | idle =>
+    have hst : step w .cancelCtx = { w with ctxCancelled := true } := by simp only [step, if_neg h, hph]
+    rw [hst]
+    exact ⟨ConnsExt.refl _, hph, (fun k hk => by cases hk), rfl, rfl, rfl, rfl, by simp [ctxSt, cancelErr, hcr0]⟩
+  | backoff =>
+    have hst : step w .cancelCtx = { w with ctxCancelled := true, phase := .exited, connectErr := true } := by
+      simp only [step, if_neg h, hph]
+    rw [hst]
+    exact ⟨ConnsExt.refl _, rfl, (fun k hk => by cases hk), rfl, rfl, rfl, rfl, by simp [ctxSt, cancelErr, hcr0]⟩
+  | dialGate =>
+    have hst : step w .cancelCtx = { w with ctxCancelled := true, phase := .exited, connectErr := true } := by
+      simp only [step, if_neg h, hph]
+    rw [hst]
+    exact ⟨ConnsExt.refl _, rfl, (fun k hk => by cases hk), rfl, rfl, rfl, rfl, by simp [ctxSt, cancelErr, hcr0]⟩
+  | exited =>
+    have hst : step w .cancelCtx = { w with ctxCancelled := true, connectErr := true } := by
+      simp only [step, if_neg h, hph]
+    rw [hst]
+    exact ⟨ConnsExt.refl _, hph, (fun k hk => by cases hk), rfl, rfl, rfl, rfl, by simp [ctxSt, cancelErr, hcr0]⟩
+  | up k =>
+    have hst : step w .cancelCtx = { w with ctxCancelled := true } := by simp only [step, if_neg h, hph]
+    rw [hst]
+    exact ⟨ConnsExt.refl _, hph, (fun _ _ => fun _ => rfl), rfl, rfl, rfl, rfl, by simp [ctxSt, cancelErr, hcr0]⟩
+  | connackGate k =>
+    have hst : step w .cancelCtx = cancelGate w k := by simp only [step, if_neg h, hph, cancelGate]
+    rw [hst]
+    obtain ⟨c1, c2, c3, c4, c5, c6, c7⟩ := cancelGate_spec w k hcr0
+    exact ⟨c1, c2, (fun k hk => by cases hk), c3, c4, c5, c6, c7⟩
 
 theorem step_shape (w : World) (ev : Ev) : Shape w ev (step w ev) := by
   cases ev with
   | start =>
     simp only [step]
     split
-    · rename_i h; exact Shape.start h
     · exact Shape.frame _ _ (Frame.refl _) (AliveEq.refl _)
+    · rename_i h
+      have hp : w.phase = .idle := by simpa using h
+      split
+      · rename_i hx; exact Shape.startCancelled hp hx
+      · rename_i hx; exact Shape.start hp (by simpa using hx)
   | app r =>
     simp only [step]
     split
@@ -648,7 +824,7 @@ theorem step_shape (w : World) (ev : Ev) : Shape w ev (step w ev) := by
     split
     · exact Shape.frame _ _ (Frame.refl _) (AliveEq.refl _)
     · rename_i h
-      exact Shape.dialOk i (by simpa using h) _ rfl rfl rfl rfl rfl rfl
+      exact Shape.dialOk i (by simpa using h) _ rfl rfl rfl rfl rfl rfl rfl
   | dialFail =>
     simp only [step]
     split
@@ -657,16 +833,34 @@ theorem step_shape (w : World) (ev : Ev) : Shape w ev (step w ev) := by
       split
       · rename_i hs; exact Shape.dialFailStopped (by simpa using h) hs
       · rename_i hs; exact Shape.dialFail (by simpa using h) (by simpa using hs)
+  | waitElapsed =>
+    simp only [step]
+    split
+    · rename_i h; exact Shape.waitElapsed h
+    · exact Shape.frame _ _ (Frame.refl _) (AliveEq.refl _)
+  | cancelCtx =>
+    by_cases h : w.ctxCancelled = true ∨ w.connectReturned.isSome = true
+    · rw [step_cancel_noop w h]; exact Shape.frame _ _ (Frame.refl _) (AliveEq.refl _)
+    · have hcc0 : w.ctxCancelled = false := by
+        cases hx : w.ctxCancelled
+        · rfl
+        · exact absurd (Or.inl hx) h
+      have hcr0 : w.connectReturned = none := by
+        cases hx : w.connectReturned
+        · rfl
+        · exact absurd (Or.inr (by rw [hx]; rfl)) h
+      obtain ⟨c1, c2, c3, c4, c5, c6, c7, c8⟩ := cancel_spec w hcc0 hcr0
+      exact Shape.cancel hcc0 hcr0 _ c1 c2 c3 c4 c5 c6 c7 c8
   | connackOk sp inb =>
     rw [step_connackOk]
     split
     · rename_i k hk
-      obtain ⟨h1, h2, h3, h4, h5, h6⟩ := connackOkPre_spec w k sp inb
+      obtain ⟨h1, h2, h3, h4, h5, h6, h7⟩ := connackOkPre_spec w k sp inb
       have hf := frame_runTasks ((connackOkPre w k sp inb).taskQ.length + 1) (connackOkPre w k sp inb)
       cases hst : w.stopped
       · rw [hst] at h2
         exact Shape.connOk sp inb k hk hst _ (h1.trans hf.1) (hf.phase.trans h2) (hf.waits.trans h3)
-          (hf.waitExp.trans h4) (hf.dials.trans h5) (hf.stopped.trans h6)
+          (hf.waitExp.trans h4) (hf.dials.trans h5) (hf.stopped.trans h6) (hf.ctx.trans h7)
       · rw [hst] at h2
         have hph : (runTasks ((connackOkPre w k sp inb).taskQ.length + 1) (connackOkPre w k sp inb)).phase
             = .exited := hf.phase.trans h2
@@ -676,7 +870,7 @@ theorem step_shape (w : World) (ev : Ev) : Shape w ev (step w ev) := by
           exact loopReact_of_not_up _ (by intro k'; rw [hph]; simp)
         rw [hlr]
         exact Shape.connOkStopped sp inb k hk hst _ (h1.trans hf.1) hph (hf.waits.trans h3)
-          (hf.waitExp.trans h4) (hf.dials.trans h5) (hf.stopped.trans h6)
+          (hf.waitExp.trans h4) (hf.dials.trans h5) (hf.stopped.trans h6) (hf.ctx.trans h7)
     · exact Shape.frame _ _ (Frame.refl _) (AliveEq.refl _)
   | connackRefused =>
     simp only [step]
@@ -719,6 +913,7 @@ theorem step_shape (w : World) (ev : Ev) : Shape w ev (step w ev) := by
         { pushTask w .disconnect with stopped := true }
       exact Shape.disc (by simpa using hs) _ (h0.1.trans hf.1) (hf.phase.trans h0.phase)
         (hf.waits.trans h0.waits) (hf.waitExp.trans h0.waitExp) (hf.dials.trans h0.dials) (hf.stopped.trans rfl)
+        (hf.ctx.trans h0.ctx)
 
 /-! ### invariants over whole runs -/
 
@@ -742,10 +937,11 @@ theorem ConnsExt.dead {cs cs' : List Conn} (h : ConnsExt cs cs') {j : Nat}
 
 /-! #### (1) one live transport -/
 
-/-- all connections but the last are dead; at the dial gate all are; the loop watches the last one -/
+/-- all connections but the last are dead; at the dial gate and during the back-off wait all are;
+    the loop watches the last one -/
 def TInv (w : World) : Prop :=
   (∀ k, k + 1 < w.conns.length → (getConn w k).alive = false) ∧
-  (w.phase = .dialGate → ∀ k, k < w.conns.length → (getConn w k).alive = false) ∧
+  ((w.phase = .dialGate ∨ w.phase = .backoff) → ∀ k, k < w.conns.length → (getConn w k).alive = false) ∧
   (w.phase = .idle → w.conns.length = 0) ∧
   (∀ k, (w.phase = .connackGate k ∨ w.phase = .up k) → k + 1 = w.conns.length)
 
@@ -761,6 +957,14 @@ theorem TInv.transfer {w w' : World} (h : TInv w) (hc : ConnsExt w.conns w'.conn
     exact hc.dead (h2 (hp ▸ hd) k hk)
   · intro hi; rw [hc.1]; exact h3 (hp ▸ hi)
   · intro k hk; rw [hc.1]; exact h4 k (hp ▸ hk)
+
+/-- into `.exited` only the first clause matters -/
+theorem TInv.to_exited {w w' : World} (h : TInv w) (hc : ConnsExt w.conns w'.conns) (hp : w'.phase = .exited) :
+    TInv w' := by
+  refine ⟨?_, by simp [hp], by simp [hp], by simp [hp]⟩
+  intro j hj
+  rw [hc.1] at hj
+  exact hc.dead (h.1 j hj)
 
 theorem TInv.all_dead {w : World} (h : TInv w) (k : Nat) (hk : k + 1 = w.conns.length)
     (hd : (getConn w k).alive = false) : ∀ j, j < w.conns.length → (getConn w j).alive = false := by
@@ -781,7 +985,8 @@ theorem TInv.disc {w : World} (h : TInv w) : TInv { w with phase := discPhase w.
   obtain ⟨h1, h2, h3, h4⟩ := h
   cases hp : w.phase with
   | idle => exact ⟨h1, by simp [discPhase], fun _ => h3 hp, by simp [discPhase]⟩
-  | dialGate => exact ⟨h1, by simp [discPhase], by simp [discPhase], by simp [discPhase]⟩
+  | backoff => exact ⟨h1, by simp [discPhase], by simp [discPhase], by simp [discPhase]⟩
+  | dialGate => exact ⟨h1, fun _ => h2 (Or.inl hp), by simp [discPhase], by simp [discPhase]⟩
   | connackGate k =>
     refine ⟨h1, by simp [discPhase], by simp [discPhase], ?_⟩
     intro k' hk'
@@ -803,8 +1008,9 @@ theorem TInv.shape {w w' : World} {ev : Ev} (h : TInv w) (hs : Shape w ev w') : 
     refine ⟨h.1, ?_, by simp, by simp⟩
     intro _ k hk
     exact absurd hk (by simp only; omega)
+  | startCancelled hp => exact ⟨h.1, by simp, by simp, by simp⟩
   | dialOk i hp _ hc hph hw he hd hs =>
-    have hall := h.2.1 hp
+    have hall := h.2.1 (Or.inl hp)
     refine ⟨?_, by simp [hph], by simp [hph], ?_⟩
     · intro k hk
       rw [hc] at hk
@@ -817,18 +1023,11 @@ theorem TInv.shape {w w' : World} {ev : Ev} (h : TInv w) (hs : Shape w ev w') : 
       rw [hph] at hk
       simp at hk
       rw [hc]; simp [hk]
-  | dialFail hp => exact ⟨h.1, h.2.1, h.2.2.1, h.2.2.2⟩
+  | dialFail hp => exact ⟨h.1, fun _ => h.2.1 (Or.inl hp), by simp, by simp⟩
   | dialFailStopped hp => exact ⟨h.1, by simp, by simp, by simp⟩
-  | connOkStopped sp inb k hp _ _ hc hph =>
-    refine ⟨?_, by simp [hph], by simp [hph], by simp [hph]⟩
-    intro j hj
-    rw [hc.1] at hj
-    exact hc.dead (h.1 j hj)
-  | connFailStopped _ hev k hp _ _ hc hph =>
-    refine ⟨?_, by simp [hph], by simp [hph], by simp [hph]⟩
-    intro j hj
-    rw [hc.1] at hj
-    exact hc.dead (h.1 j hj)
+  | waitElapsed hp => exact ⟨h.1, fun _ => h.2.1 (Or.inr hp), by simp, by simp⟩
+  | connOkStopped sp inb k hp _ _ hc hph => exact h.to_exited hc hph
+  | connFailStopped _ hev k hp _ _ hc hph => exact h.to_exited hc hph
   | connOk sp inb k hp _ w1 hc hph hw he hd hs =>
     apply TInv.loopReact
     have hlen := h.2.2.2 k (Or.inl hp)
@@ -853,6 +1052,14 @@ theorem TInv.shape {w w' : World} {ev : Ev} (h : TInv w) (hs : Shape w ev w') : 
     · exact h1 j (by rw [hc.1] at hj ⊢; omega)
   | disc hs0 w1 hc hph hw he hd hs =>
     exact (h.transfer hc hph).loopReact.disc
+  | cancel hcc0 hcr0 _ hc hph hup =>
+    cases hp : w.phase with
+    | idle => exact h.transfer hc (by rw [hph, hp]; rfl)
+    | up k => exact h.transfer hc (by rw [hph, hp]; rfl)
+    | backoff => exact h.to_exited hc (by rw [hph, hp]; rfl)
+    | dialGate => exact h.to_exited hc (by rw [hph, hp]; rfl)
+    | connackGate k => exact h.to_exited hc (by rw [hph, hp]; rfl)
+    | exited => exact h.to_exited hc (by rw [hph, hp]; rfl)
 
 theorem TInv.at_init (s : Script) : TInv (init s) := by
   refine ⟨?_, ?_, ?_, ?_⟩ <;> simp [Retry.init]
@@ -914,6 +1121,9 @@ theorem shape_conns {w w' : World} {ev : Ev} (hs : Shape w ev w') :
   | frame _ _ hf => exact Or.inl hf.1
   | react _ w1 hf => left; rw [loopReact_conns]; exact hf.1
   | start hp => exact Or.inl (ConnsExt.refl _)
+  | startCancelled hp => exact Or.inl (ConnsExt.refl _)
+  | waitElapsed hp => exact Or.inl (ConnsExt.refl _)
+  | cancel _ _ _ hc => exact Or.inl hc
   | dialOk i hp _ hc => exact Or.inr ⟨i, hc⟩
   | dialFail hp => exact Or.inl (ConnsExt.refl _)
   | dialFailStopped hp => exact Or.inl (ConnsExt.refl _)
@@ -954,6 +1164,9 @@ theorem shape_waits {w w' : World} {ev : Ev} (hs : Shape w ev w') :
     · left; rw [a, b]; exact ⟨hf.waits, hf.waitExp⟩
     · right; left; rw [a, b, hf.waits, hf.waitExp]; exact ⟨rfl, rfl⟩
   | start hp => exact Or.inl ⟨rfl, rfl⟩
+  | startCancelled hp => exact Or.inl ⟨rfl, rfl⟩
+  | waitElapsed hp => exact Or.inl ⟨rfl, rfl⟩
+  | cancel _ _ _ hc hph hup hw he => exact Or.inl ⟨hw, he⟩
   | dialOk i hp _ hc hph hw he hd hs => exact Or.inl ⟨hw, he⟩
   | dialFail hp => exact Or.inr (Or.inl ⟨rfl, rfl⟩)
   | dialFailStopped hp => exact Or.inl ⟨rfl, rfl⟩
@@ -974,16 +1187,23 @@ theorem shape_waits {w w' : World} {ev : Ev} (hs : Shape w ev w') :
 /-! #### (4) after Disconnect -/
 
 /-- how many more dials a STOPPED loop can still make from a phase: one from `.idle` (the Go loop
-    dials before it first looks at `disconnected`), none otherwise -/
+    dials before it first looks at `disconnected`) and one from `.backoff` (a stopped loop is never
+    found there, see `SInv`: Disconnect releases the back-off select), none otherwise -/
 def dialBudget : Phase → Nat
   | .idle => 1
+  | .backoff => 1
   | _ => 0
 
 /-- how many more connections a STOPPED loop can still create: one if a dial is or will be in flight -/
 def connBudget : Phase → Nat
   | .idle => 1
+  | .backoff => 1
   | .dialGate => 1
   | _ => 0
+
+theorem budget_cancel (p : Phase) :
+    dialBudget (cancelPhase p) ≤ dialBudget p ∧ connBudget (cancelPhase p) ≤ connBudget p := by
+  cases p <;> simp [cancelPhase, dialBudget, connBudget]
 
 theorem stopped_loopReact {w : World} (h : w.stopped = true) :
     (loopReact w).dials = w.dials ∧ dialBudget (loopReact w).phase ≤ dialBudget w.phase ∧
@@ -1019,6 +1239,14 @@ theorem stopped_shape {w w' : World} {ev : Ev} (h : w.stopped = true) (hs : Shap
     refine ⟨h, Nat.le_succ _, Nat.le_refl _, ?_, ?_⟩
     · rw [hp]; exact Nat.le_refl _
     · rw [hp]; exact Nat.le_refl _
+  | startCancelled hp =>
+    refine ⟨h, Nat.le_succ _, Nat.le_refl _, ?_, ?_⟩
+    · rw [hp]; exact Nat.le_refl _
+    · rw [hp]; show w.conns.length + 0 ≤ _; omega
+  | waitElapsed hp =>
+    refine ⟨h, Nat.le_succ _, Nat.le_refl _, ?_, ?_⟩
+    · rw [hp]; exact Nat.le_refl _
+    · rw [hp]; exact Nat.le_refl _
   | dialOk i hp _ hc hph hw he hd hs =>
     refine ⟨hs.trans h, by rw [hd]; exact Nat.le_refl _, by rw [hc]; simp, ?_, ?_⟩
     · rw [hd, hph, hp]; exact Nat.le_refl _
@@ -1039,6 +1267,11 @@ theorem stopped_shape {w w' : World} {ev : Ev} (h : w.stopped = true) (hs : Shap
     · rw [hd, hph]; show w.dials + 0 ≤ _; omega
     · rw [hc.1, hph]; show w.conns.length + 0 ≤ _; omega
   | disc hs0 => rw [h] at hs0; cases hs0
+  | cancel _ _ _ hc hph hup hw he hd hs =>
+    obtain ⟨b1, b2⟩ := budget_cancel w.phase
+    refine ⟨hs.trans h, by rw [hd]; exact Nat.le_refl _, by rw [hc.1]; exact Nat.le_refl _, ?_, ?_⟩
+    · rw [hd, hph]; omega
+    · rw [hc.1, hph]; omega
 
 theorem stopped_foldl (evs : List Ev) (w : World) (h : w.stopped = true) :
     (evs.foldl step w).stopped = true ∧ w.dials ≤ (evs.foldl step w).dials ∧
@@ -1064,6 +1297,9 @@ theorem exited_shape {w w' : World} {ev : Ev} (h : w.phase = .exited) (hs : Shap
     rw [hlr w1 (hf.phase.trans h)]
     exact ⟨hf.phase.trans h, hf.dials, hf.length⟩
   | start hp => rw [h] at hp; cases hp
+  | startCancelled hp => rw [h] at hp; cases hp
+  | waitElapsed hp => rw [h] at hp; cases hp
+  | cancel _ _ _ hc hph hup hw he hd => exact ⟨by rw [hph, h]; rfl, hd, hc.1⟩
   | dialOk i hp => rw [h] at hp; cases hp
   | dialFail hp => rw [h] at hp; cases hp
   | dialFailStopped hp => rw [h] at hp; cases hp
@@ -1098,6 +1334,9 @@ theorem idle_shape {w w' : World} {ev : Ev} (h : w.phase = .idle) (hev : ev ≠ 
     rw [hlr w1 (hf.phase.trans h)]
     exact ⟨hf.phase.trans h, hf.dials, hf.length⟩
   | start hp => exact absurd rfl hev
+  | startCancelled hp => exact absurd rfl hev
+  | waitElapsed hp => rw [h] at hp; cases hp
+  | cancel _ _ _ hc hph hup hw he hd => exact ⟨by rw [hph, h]; rfl, hd, hc.1⟩
   | dialOk i hp => rw [h] at hp; cases hp
   | dialFail hp => rw [h] at hp; cases hp
   | dialFailStopped hp => rw [h] at hp; cases hp
@@ -1168,8 +1407,17 @@ theorem UInv.shape {w w' : World} {ev : Ev} (h : UInv w) (hs : Shape w ev w') : 
   | frame _ _ hf ha => intro k hk; rw [ha k]; exact h k (hf.phase ▸ hk)
   | react _ w1 hf => exact hlr w1
   | start hp => intro k hk; cases hk
+  | startCancelled hp => intro k hk; cases hk
+  | waitElapsed hp => intro k hk; cases hk
+  | cancel _ _ _ hc hph hup =>
+    intro k hk
+    rw [hph] at hk
+    have hp : w.phase = .up k := by
+      cases hq : w.phase <;> rw [hq] at hk <;> simp [cancelPhase] at hk
+      rw [hk]
+    rw [hup k hp k]; exact h k hp
   | dialOk i hp _ hc hph => intro k hk; rw [hph] at hk; cases hk
-  | dialFail hp => intro k hk; exact absurd (hp ▸ hk) (by simp)
+  | dialFail hp => intro k hk; cases hk
   | dialFailStopped hp => intro k hk; cases hk
   | connOk sp inb k hp _ w1 => exact hlr w1
   | connOkStopped sp inb k hp _ _ hc hph => intro k hk; rw [hph] at hk; cases hk
@@ -1180,5 +1428,439 @@ theorem UInv.shape {w w' : World} {ev : Ev} (h : UInv w) (hs : Shape w ev w') : 
 theorem UInv.exec (s : Script) : UInv (exec s) :=
   exec_inv UInv (fun s k hk => by simp [init] at hk) (fun w ev h => h.shape (step_shape w ev)) s
 
-end Mqtt.Retry
+/-! #### a stopped loop is never found waiting to redial -/
 
+/-- Disconnect releases the back-off select and every failure observed after Disconnect ends the loop -/
+def SInv (w : World) : Prop := w.stopped = true → w.phase ≠ .backoff
+
+theorem SInv.loopReact {w : World} (h : SInv w) : SInv (loopReact w) := by
+  intro hs
+  rw [loopReact_stopped] at hs
+  rcases loopReact_cases w with ⟨e, _⟩ | ⟨k, hk, _, _, e⟩ | ⟨k, hk, _, hs2, e⟩
+  · rw [e]; exact h hs
+  · rw [e]; simp
+  · rw [hs] at hs2; cases hs2
+
+theorem discPhase_ne_backoff (p : Phase) : discPhase p ≠ .backoff := by
+  cases p <;> simp [discPhase]
+
+theorem cancelPhase_ne_backoff (p : Phase) : cancelPhase p ≠ .backoff := by
+  cases p <;> simp [cancelPhase]
+
+theorem SInv.shape {w w' : World} {ev : Ev} (h : SInv w) (hs : Shape w ev w') : SInv w' := by
+  cases hs with
+  | frame _ _ hf => intro hs; rw [hf.phase]; exact h (hf.stopped ▸ hs)
+  | react _ w1 hf =>
+    apply SInv.loopReact
+    intro hs; rw [hf.phase]; exact h (hf.stopped ▸ hs)
+  | start hp => intro _; simp
+  | startCancelled hp => intro _; simp
+  | dialOk i hp _ hc hph => intro _; rw [hph]; simp
+  | dialFail hp hs0 => intro hs; rw [show w.stopped = true from hs] at hs0; cases hs0
+  | dialFailStopped hp => intro _; simp
+  | waitElapsed hp => intro _; simp
+  | connOk sp inb k hp _ w1 hc hph =>
+    apply SInv.loopReact
+    intro _; rw [hph]; simp
+  | connOkStopped sp inb k hp _ _ hc hph => intro _; rw [hph]; simp
+  | connFail _ hev k hp hs0 _ hc hdead hph hw he hd hs => intro hs'; rw [hs, hs0] at hs'; cases hs'
+  | connFailStopped _ hev k hp _ _ hc hph => intro _; rw [hph]; simp
+  | disc hs0 w1 => intro _; exact discPhase_ne_backoff _
+  | cancel _ _ _ hc hph => intro _; rw [hph]; exact cancelPhase_ne_backoff _
+
+theorem SInv.exec (s : Script) : SInv (exec s) :=
+  exec_inv SInv (fun s hs => by simp [init] at hs) (fun w ev h => h.shape (step_shape w ev)) s
+
+/-! #### every dial is preceded by its wait -/
+
+/-- the relation between the phase, the number of DialContext calls and the number of logged waits:
+    the first dial needs no wait, every later one consumes exactly one logged wait (at `.waitElapsed`);
+    in `.backoff` the last logged wait is still running -/
+def DRel : Phase → Nat → Nat → Prop
+  | .idle, d, n => d = 0 ∧ n = 0
+  | .backoff, d, n => d = n ∧ 1 ≤ d
+  | .exited, d, n => n ≤ d ∧ d ≤ n + 1 ∧ 1 ≤ d
+  | _, d, n => d = n + 1
+
+def DInv (w : World) : Prop := DRel w.phase w.dials w.waits.length
+
+theorem DRel.disc {p : Phase} {d n : Nat} (h : DRel p d n) : DRel (discPhase p) d n := by
+  cases p <;> simp [DRel, discPhase] at h ⊢ <;> omega
+
+theorem DRel.cancel {p : Phase} {d n : Nat} (h : DRel p d n) : DRel (cancelPhase p) d n := by
+  cases p <;> simp [DRel, cancelPhase] at h ⊢ <;> omega
+
+theorem DInv.loopReact {w : World} (h : DInv w) : DInv (loopReact w) := by
+  rcases loopReact_cases w with ⟨e, _⟩ | ⟨k, hk, _, _, e⟩ | ⟨k, hk, _, _, e⟩
+  · rw [e]; exact h
+  · rw [e]; unfold DInv at h ⊢; rw [hk] at h; simp [DRel] at h ⊢; omega
+  · rw [e]; unfold DInv at h ⊢; rw [hk] at h; simp [DRel] at h ⊢; omega
+
+theorem DInv.shape {w w' : World} {ev : Ev} (h : DInv w) (hs : Shape w ev w') : DInv w' := by
+  cases hs with
+  | frame _ _ hf => unfold DInv; rw [hf.phase, hf.dials, hf.waits]; exact h
+  | react _ w1 hf =>
+    apply DInv.loopReact
+    unfold DInv; rw [hf.phase, hf.dials, hf.waits]; exact h
+  | start hp =>
+    unfold DInv at h ⊢; rw [hp] at h
+    obtain ⟨a, b⟩ := h
+    show w.dials + 1 = w.waits.length + 1
+    rw [a, b]
+  | startCancelled hp =>
+    unfold DInv at h ⊢; rw [hp] at h
+    obtain ⟨a, b⟩ := h
+    show w.waits.length ≤ w.dials + 1 ∧ w.dials + 1 ≤ w.waits.length + 1 ∧ 1 ≤ w.dials + 1
+    rw [a, b]; exact ⟨by omega, by omega, by omega⟩
+  | dialOk i hp _ hc hph hw he hd hs =>
+    unfold DInv at h ⊢; rw [hp] at h; rw [hph, hd, hw]; simpa [DRel] using h
+  | dialFail hp hs0 => unfold DInv at h ⊢; rw [hp] at h; simp [DRel] at h ⊢; omega
+  | dialFailStopped hp => unfold DInv at h ⊢; rw [hp] at h; simp [DRel] at h ⊢; omega
+  | waitElapsed hp => unfold DInv at h ⊢; rw [hp] at h; simp [DRel] at h ⊢; omega
+  | connOk sp inb k hp _ w1 hc hph hw he hd hs =>
+    apply DInv.loopReact
+    unfold DInv at h ⊢; rw [hp] at h; rw [hph, hd, hw]; simpa [DRel] using h
+  | connOkStopped sp inb k hp _ _ hc hph hw he hd hs =>
+    unfold DInv at h ⊢; rw [hp] at h; rw [hph, hd, hw]; simp [DRel] at h ⊢; omega
+  | connFail _ hev k hp _ _ hc hdead hph hw he hd hs =>
+    unfold DInv at h ⊢; rw [hp] at h; rw [hph, hd, hw]; simp [DRel] at h ⊢; omega
+  | connFailStopped _ hev k hp _ _ hc hph hw he hd hs =>
+    unfold DInv at h ⊢; rw [hp] at h; rw [hph, hd, hw]; simp [DRel] at h ⊢; omega
+  | disc hs0 w1 hc hph hw he hd hs =>
+    have h1 : DInv w1 := by unfold DInv; rw [hph, hd, hw]; exact h
+    exact DRel.disc (DInv.loopReact h1)
+  | cancel _ _ _ hc hph hup hw he hd hs =>
+    unfold DInv; rw [hph, hd, hw]; exact DRel.cancel h
+
+theorem DInv.exec (s : Script) : DInv (exec s) :=
+  exec_inv DInv (fun s => by simp [DInv, DRel, init]) (fun w ev h => h.shape (step_shape w ev)) s
+
+/-- one step makes at most one dial, and only `.start` (from `.idle`) or `.waitElapsed` (from `.backoff`) do -/
+theorem shape_dials {w w' : World} {ev : Ev} (hs : Shape w ev w') :
+    w'.dials = w.dials ∨
+    (w'.dials = w.dials + 1 ∧ ((ev = .start ∧ w.phase = .idle) ∨ (ev = .waitElapsed ∧ w.phase = .backoff))) := by
+  cases hs with
+  | frame _ _ hf => exact Or.inl hf.dials
+  | react _ w1 hf => left; rw [loopReact_dials]; exact hf.dials
+  | start hp => exact Or.inr ⟨rfl, Or.inl ⟨rfl, hp⟩⟩
+  | startCancelled hp => exact Or.inr ⟨rfl, Or.inl ⟨rfl, hp⟩⟩
+  | dialOk i hp _ hc hph hw he hd hs => exact Or.inl hd
+  | dialFail hp hs0 => exact Or.inl rfl
+  | dialFailStopped hp => exact Or.inl rfl
+  | waitElapsed hp => exact Or.inr ⟨rfl, Or.inr ⟨rfl, hp⟩⟩
+  | connOk sp inb k hp _ w1 hc hph hw he hd hs => left; rw [loopReact_dials]; exact hd
+  | connOkStopped sp inb k hp _ _ hc hph hw he hd hs => exact Or.inl hd
+  | connFail _ hev k hp _ _ hc hdead hph hw he hd hs => exact Or.inl hd
+  | connFailStopped _ hev k hp _ _ hc hph hw he hd hs => exact Or.inl hd
+  | disc hs0 w1 hc hph hw he hd hs =>
+    left; show (loopReact w1).dials = _; rw [loopReact_dials]; exact hd
+  | cancel _ _ _ hc hph hup hw he hd hs => exact Or.inl hd
+
+/-- `.idle` is never entered again -/
+theorem shape_not_idle {w w' : World} {ev : Ev} (h : w.phase ≠ .idle) (hs : Shape w ev w') : w'.phase ≠ .idle := by
+  have hlr : ∀ w1 : World, w1.phase ≠ .idle → (loopReact w1).phase ≠ .idle := by
+    intro w1 h1
+    rcases loopReact_cases w1 with ⟨e, _⟩ | ⟨k, _, _, _, e⟩ | ⟨k, _, _, _, e⟩
+    · rw [e]; exact h1
+    · rw [e]; simp
+    · rw [e]; simp
+  cases hs with
+  | frame _ _ hf => rw [hf.phase]; exact h
+  | react _ w1 hf => exact hlr w1 (by rw [hf.phase]; exact h)
+  | start hp => simp
+  | startCancelled hp => simp
+  | dialOk i hp _ hc hph => rw [hph]; simp
+  | dialFail hp hs0 => simp
+  | dialFailStopped hp => simp
+  | waitElapsed hp => simp
+  | connOk sp inb k hp _ w1 hc hph => exact hlr w1 (by rw [hph]; simp)
+  | connOkStopped sp inb k hp _ _ hc hph => rw [hph]; simp
+  | connFail _ hev k hp _ _ hc hdead hph => rw [hph]; simp
+  | connFailStopped _ hev k hp _ _ hc hph => rw [hph]; simp
+  | disc hs0 w1 hc hph =>
+    have := hlr w1 (by rw [hph]; exact h)
+    show discPhase (loopReact w1).phase ≠ .idle
+    cases hq : (loopReact w1).phase <;> simp [discPhase]
+    exact this hq
+  | cancel _ _ _ hc hph =>
+    rw [hph]
+    cases hq : w.phase <;> simp [cancelPhase]
+    exact h hq
+
+/-! #### what `ReconnectClient.Connect` returned, and its context -/
+
+theorem ctxSt_eq {w w' : World} (h : ctxSt w' = ctxSt w) :
+    w'.connectReturned = w.connectReturned ∧ w'.ctxCancelled = w.ctxCancelled ∧ w'.connectErr = w.connectErr := by
+  unfold ctxSt at h
+  injection h with a h
+  injection h with b c
+  exact ⟨a, b, c⟩
+
+theorem ctxSt_eq' {w' : World} {a : Option Bool} {b c : Bool} (h : ctxSt w' = (a, b, c)) :
+    w'.connectReturned = a ∧ w'.ctxCancelled = b ∧ w'.connectErr = c := by
+  unfold ctxSt at h
+  injection h with a h
+  injection h with b c
+  exact ⟨a, b, c⟩
+
+/-- the outcome of Connect is never revoked: an error stays, a cancelled context stays cancelled, a
+    returned session-present flag stays -/
+def CtxMono (w w' : World) : Prop :=
+  (w.connectErr = true → w'.connectErr = true) ∧ (w.ctxCancelled = true → w'.ctxCancelled = true) ∧
+    (w.connectReturned.isSome = true → w'.connectReturned = w.connectReturned)
+
+theorem CtxMono.of_eq {w w' : World} (h : ctxSt w' = ctxSt w) : CtxMono w w' := by
+  obtain ⟨a, b, c⟩ := ctxSt_eq h
+  exact ⟨fun h => c ▸ h, fun h => b ▸ h, fun _ => a⟩
+
+theorem CtxMono.refl (w : World) : CtxMono w w := CtxMono.of_eq rfl
+
+theorem CtxMono.trans {a b c : World} (h1 : CtxMono a b) (h2 : CtxMono b c) : CtxMono a c :=
+  ⟨fun h => h2.1 (h1.1 h), fun h => h2.2.1 (h1.2.1 h),
+   fun h => by
+     have e1 := h1.2.2 h
+     have : b.connectReturned.isSome = true := by rw [e1]; exact h
+     rw [h2.2.2 this, e1]⟩
+
+theorem CtxMono.connOk {w w1 : World} {sp : Bool}
+    (hx : ctxSt w1 = (if w.connectReturned.isNone then some sp else w.connectReturned, w.ctxCancelled, w.connectErr)) :
+    CtxMono w w1 := by
+  obtain ⟨a, b, c⟩ := ctxSt_eq' hx
+  refine ⟨fun h => c ▸ h, fun h => b ▸ h, fun h => ?_⟩
+  rw [a]
+  cases hq : w.connectReturned with
+  | none => rw [hq] at h; cases h
+  | some v => rfl
+
+theorem shape_ctxMono {w w' : World} {ev : Ev} (hs : Shape w ev w') : CtxMono w w' := by
+  cases hs with
+  | frame _ _ hf => exact CtxMono.of_eq hf.ctx
+  | react _ w1 hf => exact CtxMono.of_eq ((loopReact_ctx w1).trans hf.ctx)
+  | start hp => exact CtxMono.refl _
+  | startCancelled hp => exact ⟨fun _ => rfl, id, fun _ => rfl⟩
+  | dialOk i hp _ hc hph hw he hd hs hx => exact CtxMono.of_eq hx
+  | dialFail hp hs0 => exact CtxMono.refl _
+  | dialFailStopped hp => exact CtxMono.refl _
+  | waitElapsed hp => exact CtxMono.refl _
+  | connOk sp inb k hp _ w1 hc hph hw he hd hs hx =>
+    exact (CtxMono.connOk hx).trans (CtxMono.of_eq (loopReact_ctx w1))
+  | connOkStopped sp inb k hp _ _ hc hph hw he hd hs hx => exact CtxMono.connOk hx
+  | connFail _ hev k hp _ _ hc hdead hph hw he hd hs hx => exact CtxMono.of_eq hx
+  | connFailStopped _ hev k hp _ _ hc hph hw he hd hs hx => exact CtxMono.of_eq hx
+  | disc hs0 w1 hc hph hw he hd hs hx => exact CtxMono.of_eq ((loopReact_ctx w1).trans hx)
+  | cancel hcc0 hcr0 _ hc hph hup hw he hd hs hx =>
+    obtain ⟨a, b, c⟩ := ctxSt_eq' hx
+    refine ⟨fun h => ?_, fun _ => b, fun h => ?_⟩
+    · rw [c, h]; cases w.phase <;> rfl
+    · rw [hcr0] at h; cases h
+
+theorem ctxMono_foldl (evs : List Ev) (w : World) : CtxMono w (evs.foldl step w) := by
+  induction evs generalizing w with
+  | nil => exact CtxMono.refl _
+  | cons e evs ih => exact (shape_ctxMono (step_shape w e)).trans (ih _)
+
+/-- Connect returns once: an error only from a loop that has ended without ever connecting, and only
+    for a cancelled context; a loop watching a connection (`.up`) has returned success -/
+def XInv (w : World) : Prop :=
+  (w.phase = .idle → w.connectReturned = none ∧ w.connectErr = false) ∧
+  (w.connectErr = true → w.phase = .exited ∧ w.connectReturned = none ∧ w.ctxCancelled = true) ∧
+  (∀ k, w.phase = .up k → w.connectReturned.isSome = true)
+
+theorem XInv.noErr {w : World} (h : XInv w) (hp : w.phase ≠ .exited) : w.connectErr = false := by
+  cases hq : w.connectErr
+  · rfl
+  · exact absurd (h.2.1 hq).1 hp
+
+theorem XInv.transfer {w w' : World} (h : XInv w) (hp : w'.phase = w.phase) (hx : ctxSt w' = ctxSt w) : XInv w' := by
+  obtain ⟨a, b, c⟩ := ctxSt_eq hx
+  unfold XInv
+  rw [hp, a, b, c]; exact h
+
+theorem XInv.loopReact {w : World} (h : XInv w) : XInv (loopReact w) := by
+  rcases loopReact_cases w with ⟨e, _⟩ | ⟨k, hk, _, _, e⟩ | ⟨k, hk, _, _, e⟩
+  · rw [e]; exact h
+  · rw [e]
+    have hne := h.noErr (by rw [hk]; simp)
+    refine And.intro (by simp) (And.intro (fun hq => ?_) (by simp))
+    rw [show w.connectErr = true from hq] at hne; cases hne
+  · rw [e]
+    have hne := h.noErr (by rw [hk]; simp)
+    refine And.intro (by simp) (And.intro (fun hq => ?_) (by simp))
+    rw [show w.connectErr = true from hq] at hne; cases hne
+
+/-- a step that leaves `connectErr` false and does not end in `.idle` / `.up` -/
+theorem XInv.of_noErr {w' : World} (he : w'.connectErr = false) (hi : w'.phase ≠ .idle)
+    (hu : ∀ k, w'.phase ≠ .up k) : XInv w' :=
+  And.intro (fun h => absurd h hi)
+    (And.intro (fun h => by rw [he] at h; cases h) (fun k h => absurd h (hu k)))
+
+theorem XInv.shape {w w' : World} {ev : Ev} (h : XInv w) (hs : Shape w ev w') : XInv w' := by
+  cases hs with
+  | frame _ _ hf => exact h.transfer hf.phase hf.ctx
+  | react _ w1 hf => exact (h.transfer hf.phase hf.ctx).loopReact
+  | start hp => exact XInv.of_noErr (h.noErr (by rw [hp]; simp)) (by simp) (by simp)
+  | startCancelled hp hx =>
+    exact And.intro (by simp) (And.intro (fun _ => ⟨rfl, (h.1 hp).1, hx⟩) (by simp))
+  | dialOk i hp _ hc hph hw he hd hs hx =>
+    refine XInv.of_noErr ?_ (by rw [hph]; simp) (by rw [hph]; simp)
+    rw [(ctxSt_eq hx).2.2]; exact h.noErr (by rw [hp]; simp)
+  | dialFail hp hs0 => exact XInv.of_noErr (h.noErr (by rw [hp]; simp)) (by simp) (by simp)
+  | dialFailStopped hp => exact XInv.of_noErr (h.noErr (by rw [hp]; simp)) (by simp) (by simp)
+  | waitElapsed hp => exact XInv.of_noErr (h.noErr (by rw [hp]; simp)) (by simp) (by simp)
+  | connOk sp inb k hp _ w1 hc hph hw he hd hs hx =>
+    apply XInv.loopReact
+    obtain ⟨a, b, c⟩ := ctxSt_eq' hx
+    have hne : w1.connectErr = false := by rw [c]; exact h.noErr (by rw [hp]; simp)
+    refine And.intro (by rw [hph]; simp) (And.intro (fun hq => by rw [hq] at hne; cases hne) (fun k' _ => ?_))
+    rw [a]; cases w.connectReturned <;> rfl
+  | connOkStopped sp inb k hp _ _ hc hph hw he hd hs hx =>
+    refine XInv.of_noErr ?_ (by rw [hph]; simp) (by rw [hph]; simp)
+    rw [(ctxSt_eq' hx).2.2]; exact h.noErr (by rw [hp]; simp)
+  | connFail _ hev k hp _ _ hc hdead hph hw he hd hs hx =>
+    refine XInv.of_noErr ?_ (by rw [hph]; simp) (by rw [hph]; simp)
+    rw [(ctxSt_eq hx).2.2]; exact h.noErr (by rw [hp]; simp)
+  | connFailStopped _ hev k hp _ _ hc hph hw he hd hs hx =>
+    refine XInv.of_noErr ?_ (by rw [hph]; simp) (by rw [hph]; simp)
+    rw [(ctxSt_eq hx).2.2]; exact h.noErr (by rw [hp]; simp)
+  | disc hs0 w1 hc hph hw he hd hs hx =>
+    obtain ⟨h1, h2, h3⟩ := (h.transfer hph hx).loopReact
+    refine And.intro ?_ (And.intro ?_ ?_)
+    · intro hq
+      apply h1
+      have hq' : discPhase (Retry.loopReact w1).phase = .idle := hq
+      cases hr : (Retry.loopReact w1).phase <;> rw [hr] at hq' <;> simp [discPhase] at hq'
+    · intro hq
+      obtain ⟨a, b, c⟩ := h2 hq
+      refine ⟨?_, b, c⟩
+      show discPhase (Retry.loopReact w1).phase = .exited
+      rw [a]; rfl
+    · intro k hk; exact absurd hk (discPhase_ne_up _ k)
+  | cancel hcc0 hcr0 _ hc hph hup hw he hd hs hx =>
+    obtain ⟨a, b, c⟩ := ctxSt_eq' hx
+    refine And.intro ?_ (And.intro ?_ ?_)
+    · intro hq
+      rw [hph] at hq
+      have hp : w.phase = .idle := by
+        cases hr : w.phase <;> rw [hr] at hq <;> simp [cancelPhase] at hq
+      refine ⟨a, ?_⟩
+      rw [c, hp]; exact (h.1 hp).2
+    · intro hq
+      refine ⟨?_, a, b⟩
+      rw [c] at hq
+      rw [hph]
+      cases hr : w.phase with
+      | idle => rw [hr] at hq; simp only [cancelErr] at hq; rw [(h.1 hr).2] at hq; cases hq
+      | up k =>
+        rw [hr] at hq; simp only [cancelErr] at hq
+        have := (h.2.1 hq).1
+        rw [hr] at this; cases this
+      | backoff => rfl
+      | dialGate => rfl
+      | connackGate k => rfl
+      | exited => rfl
+    · intro k hk
+      rw [hph] at hk
+      have hp : w.phase = .up k := by
+        cases hr : w.phase <;> rw [hr] at hk <;> simp [cancelPhase] at hk
+        rw [hk]
+      have := h.2.2 k hp
+      rw [hcr0] at this; cases this
+
+theorem XInv.exec (s : Script) : XInv (exec s) :=
+  exec_inv XInv (fun s => by simp [XInv, init]) (fun w ev h => h.shape (step_shape w ev)) s
+
+/-! #### a stopped loop leaves the dial / CONNECT attempt in flight through `.exited` -/
+
+theorem progress_cfg (w : World) : (progress w).cfg = w.cfg := by
+  unfold progress
+  rw [loopReact_cfg]; exact (frame_runTasks _ w).cfg
+
+theorem step_disconnect_cfg (w : World) : (step w .disconnect).cfg = w.cfg := by
+  rw [step_disconnect]
+  split
+  · rfl
+  · show (progress _).cfg = _
+    rw [progress_cfg]; rfl
+
+theorem connackOk_stopped (w : World) (k : Nat) (sp : Bool) (inb : List (Nat × Nat))
+    (hp : w.phase = .connackGate k) (hs : w.stopped = true) : (step w (.connackOk sp inb)).phase = .exited := by
+  rw [step_connackOk]
+  simp only [hp]
+  have h2 := (connackOkPre_spec w k sp inb).2.1
+  rw [hs] at h2
+  have h2' : (connackOkPre w k sp inb).phase = .exited := h2
+  rw [(progress_not_up _ (by intro k'; rw [h2']; simp)).phase]
+  exact h2'
+
+theorem connectFailed_stopped (w : World) (k : Nat) (hs : w.stopped = true) :
+    (progress (connectFailed w k)).phase = .exited := by
+  obtain ⟨_, _, _, _, _, hT, _⟩ := connectFailed_spec w k
+  have h2 := (hT hs).1
+  rw [(progress_not_up _ (by intro k'; rw [h2]; simp)).phase]
+  exact h2
+
+theorem connackRefused_stopped (w : World) (k : Nat) (hp : w.phase = .connackGate k) (hs : w.stopped = true) :
+    (step w .connackRefused).phase = .exited := by
+  simp only [step, hp]
+  exact connectFailed_stopped w k hs
+
+theorem connackNever_stopped (w : World) (k : Nat) (hp : w.phase = .connackGate k) (hs : w.stopped = true)
+    (ht : w.cfg.connectTimeout = true) : (step w .connackNever).phase = .exited := by
+  simp only [step, hp, ht, if_true]
+  exact connectFailed_stopped w k hs
+
+/-- a stopped loop with a dial or a CONNECT in flight: every event leaves it where it is, or moves it
+    from the dial to the CONNECT (only `.dialOk`), or ends it — it never goes back to wait or dial -/
+theorem stopped_gate_shape {w w' : World} {ev : Ev} (hst : w.stopped = true) (hs : Shape w ev w') :
+    (w.phase = .dialGate → w'.phase = .dialGate ∨ w'.phase = .exited ∨
+        ((∃ i, ev = .dialOk i) ∧ w'.phase = .connackGate w.conns.length)) ∧
+    (∀ k, w.phase = .connackGate k → w'.phase = .connackGate k ∨ w'.phase = .exited) := by
+  have hlr : ∀ w1 : World, w1.phase = w.phase → (∀ k, w.phase ≠ .up k) → (loopReact w1).phase = w.phase := by
+    intro w1 h1 hn
+    rw [loopReact_of_not_up w1 (by intro k; rw [h1]; exact hn k)]; exact h1
+  have key : (w'.phase = w.phase ∨ w'.phase = .exited ∨
+      ((∃ i, ev = .dialOk i) ∧ w.phase = .dialGate ∧ w'.phase = .connackGate w.conns.length)) ∨
+      (∃ k, w.phase = .up k) ∨ w.phase = .idle ∨ w.phase = .backoff := by
+    cases hs with
+    | frame _ _ hf => exact Or.inl (Or.inl hf.phase)
+    | react _ w1 hf =>
+      by_cases hu : ∃ k, w.phase = .up k
+      · exact Or.inr (Or.inl hu)
+      · exact Or.inl (Or.inl (hlr w1 hf.phase (fun k hk => hu ⟨k, hk⟩)))
+    | start hp => exact Or.inr (Or.inr (Or.inl hp))
+    | startCancelled hp => exact Or.inr (Or.inr (Or.inl hp))
+    | dialOk i hp _ hc hph => exact Or.inl (Or.inr (Or.inr ⟨⟨i, rfl⟩, hp, hph⟩))
+    | dialFail hp hs0 => rw [hst] at hs0; cases hs0
+    | dialFailStopped hp => exact Or.inl (Or.inr (Or.inl rfl))
+    | waitElapsed hp => exact Or.inr (Or.inr (Or.inr hp))
+    | connOk sp inb k hp hs0 => rw [hst] at hs0; cases hs0
+    | connOkStopped sp inb k hp _ _ hc hph => exact Or.inl (Or.inr (Or.inl hph))
+    | connFail _ hev k hp hs0 => rw [hst] at hs0; cases hs0
+    | connFailStopped _ hev k hp _ _ hc hph => exact Or.inl (Or.inr (Or.inl hph))
+    | disc hs0 => rw [hst] at hs0; cases hs0
+    | cancel _ _ _ hc hph =>
+      rw [hph]
+      cases hq : w.phase with
+      | idle => exact Or.inr (Or.inr (Or.inl rfl))
+      | up k => exact Or.inr (Or.inl ⟨k, rfl⟩)
+      | backoff => exact Or.inr (Or.inr (Or.inr rfl))
+      | dialGate => exact Or.inl (Or.inr (Or.inl rfl))
+      | connackGate k => exact Or.inl (Or.inr (Or.inl rfl))
+      | exited => exact Or.inl (Or.inl rfl)
+  refine ⟨fun hp => ?_, fun k hp => ?_⟩
+  · rcases key with (h | h | ⟨hi, _, h⟩) | ⟨k, h⟩ | h | h
+    · exact Or.inl (h.trans hp)
+    · exact Or.inr (Or.inl h)
+    · exact Or.inr (Or.inr ⟨hi, h⟩)
+    · rw [hp] at h; cases h
+    · rw [hp] at h; cases h
+    · rw [hp] at h; cases h
+  · rcases key with (h | h | ⟨_, hd, _⟩) | ⟨k', h⟩ | h | h
+    · exact Or.inl (h.trans hp)
+    · exact Or.inr h
+    · rw [hp] at hd; cases hd
+    · rw [hp] at h; cases h
+    · rw [hp] at h; cases h
+    · rw [hp] at h; cases h
+
+end Mqtt.Retry
